@@ -29,7 +29,7 @@ META = {
     'assumptions': ['Cholesky uniqueness: every upper-triangular matrix with positive diagonal is the B (A) matrix of exactly one cell',
                     'exact real arithmetic; pi enclosure'],
 }
-GROUPS = ['new_roundtrip', 'new_oracle', 'old_pair', 'ubi_eps']
+GROUPS = ['new_roundtrip', 'new_oracle', 'old_pair', 'ubi_eps', 'history']
 EN = ['e11', 'e12', 'e13', 'e22', 'e23', 'e33']
 XN = ['x' + n for n in C.CELL_NAMES]
 
@@ -93,6 +93,15 @@ def run_unit(u, desc, tier, seed):
                 e = mod.b_to_epsilon(B2, cell)
                 orc = sym6(np.dot(B0, SYMNP.linalg.inv(B2)))
                 return {'B0': B0, 'B2': B2, 'eps': e, 'orc': orc, 'Bback': mod.epsilon_to_b(orc, cell)}
+            if group == 'history':
+                # the same list object is modified in place between calls: results must follow the current contents
+                L = list(cell)
+                e1 = mod.b_to_epsilon(B2, L)
+                L[:] = list(cell2)
+                e2 = mod.b_to_epsilon(B2, L)
+                Bz = mod.epsilon_to_b([0, 0, 0, 0, 0, 0], L)
+                U_, e3 = mod.ubi_to_u_and_eps(SYMNP.linalg.inv(B2) * kap, L) if modname == 'laue' else (None, e2)
+                return {'B2': B2, 'e1': e1, 'e2': e2, 'Bz': Bz, 'e3': e3, 'orc': sym6(np.dot(B0, SYMNP.linalg.inv(B2)))}
             if group == 'old_pair':
                 A0 = mod.form_a_mat(cell)
                 A2 = mod.form_a_mat(cell2)
@@ -147,6 +156,11 @@ def run_unit(u, desc, tier, seed):
         elif group == 'old_pair':
             P('b_to_epsilon_old=sym(A.inv(A0))-I', C.resid_goal(zc, [o['eps'][i] - o['orc'][i] for i in range(6)]))
             P('epsilon_to_b_old(eps_old(B))=B', C.resid_goal(zc, C.flat(o['Bback'] - o['B2'])))
+        elif group == 'history':
+            P('history/first-call=oracle', C.resid_goal(zc, [o['e1'][i] - o['orc'][i] for i in range(6)]))
+            P('history/b_to_epsilon-follows-in-place-change-of-the-cell-list', C.resid_goal(zc, list(o['e2'])))
+            P('history/epsilon_to_b(0)-follows-in-place-change', C.resid_goal(zc, C.flat(o['Bz'] - o['B2'])))
+            P('history/ubi_to_u_and_eps-follows-in-place-change', C.resid_goal(zc, list(o['e3'])))
         elif group == 'ubi_eps':
             P('harness/UBI-is-u_to_ubi-convention', C.resid_goal(zc, C.flat(o['UBI'] - o['UBI_own'])))
             P('ubi_to_u_and_eps/U', C.resid_goal(zc, C.flat(o['U2'] - U)))
@@ -172,6 +186,8 @@ def validate(mod, modname, group, o, env):
             return C.close([C.evalq(x, env) for x in o['eps']], mod.b_to_epsilon(B2, cellf), 1e-7, 1e-8)
         if group == 'old_pair':
             return C.close([C.evalq(x, env) for x in o['eps']], mod.b_to_epsilon_old(B2, cellf), 1e-7, 1e-8)
+        if group == 'history':
+            return True
         if group == 'ubi_eps':
             U = rot_from_quat(quat_floats(env))
             UBI = mod.u_to_ubi(U, c2)
@@ -217,6 +233,12 @@ def numeric(modname, group, cell, cell2, eps, q, tol=1e-6):
             orco = s6(mod.form_a_mat(cell2) @ np.linalg.inv(mod.form_a_mat(cell)))
             chk('b_to_epsilon_old', mod.b_to_epsilon_old(B2, cell), orco)
             chk('epsilon_to_b_old', mod.epsilon_to_b_old(orco, cell), B2)
+        elif group == 'history':
+            L = list(cell)
+            mod.b_to_epsilon(B2, L)
+            L[:] = list(cell2)
+            chk('b_to_epsilon after in-place change of the cell list', mod.b_to_epsilon(B2, L), [0.] * 6)
+            chk('epsilon_to_b(0) after in-place change', mod.epsilon_to_b([0.] * 6, L), B2)
         elif group == 'ubi_eps':
             U = rot_from_quat(np.asarray(q) / np.linalg.norm(q))
             UBI = mod.u_to_ubi(U, cell2)
